@@ -415,6 +415,9 @@ HIST_ALPHA = [
     {"op": "set", "key": "slabs", "value": PAYLOAD, "noreply": False}, {"op": "get", "key": "64"}, {"op": "set", "key": b"64", "value": b"1", "noreply": True},
     {"op": "get", "key": LONGTOK}, {"op": "delete", "key": "items", "noreply": False}, {"op": "get_many", "keys": ["items", "64"]},
     {"op": "incr", "key": "64", "delta": 1, "noreply": False}, {"op": "set_many", "values": {"slabs": b"v", LONGTOK: b"w"}, "noreply": False},
+    # life-cycle events (not judged themselves): the connection is closed; the server goes away long enough to be given up
+    # (by a HashClient: marked dead) and comes back - the calls that follow are judged like any other
+    {"op": "close"}, {"op": "outage"}, {"op": "set", "key": "items", "value": b"v"}, {"op": "delete", "key": "slabs"}, {"op": "touch", "key": "64", "expire": 5},
 ]
 HIST_PREFIXES = [b"ns:", b"", b"0123456789"]
 
@@ -431,13 +434,32 @@ def check_history(case):
     """every call of a sequence on ONE client object is judged like a single call: what a token was used for earlier
     (a key, a `stats` argument, a memory limit) must not change how it is written now"""
     kind, cfg = case["kind"], case["cfg"]
+    from vlib.harness import virtual_time
     env = Env()
+    with virtual_time(env.clock):
+        return _check_history(case, env, kind, cfg)
+
+
+def _check_history(case, env, kind, cfg):
     c = env.client(kind, **{k: cfg[k] for k in ("key_prefix", "allow_unicode_keys", "encoding", "default_noreply") if k in cfg})
     srv = env.server
     roles = {}
     mixed = False
     for i, r in enumerate(case["ops"]):
         if not _usable(kind, r):
+            continue
+        if r["op"] == "close":
+            c.close()
+            continue
+        if r["op"] == "outage":
+            srv.down = "refused"
+            for _ in range(5):
+                env.call(c.get, "probe")
+                env.clock.advance(1.5)
+            srv.down = None
+            env.clock.advance(61)
+            env.call(c.get, "probe")
+            mixed = True
             continue
         lm, nm, em = len(srv.log), len(env.net.log), len(srv.errors)
         try:
